@@ -32,7 +32,7 @@ import (
 
 // Full pipelines, real entry points:
 //
-//	full p=grouping n=<n> fault=<none|silent:j|dropdeal:j|dropresp:j|loseack:j> cancel=<never|ev<k>>
+//	full p=grouping n=<n> fault=<none|silent:j|dropdeal:j|dropresp:j|loseack:j|baddeal:j|badresp:j> cancel=<never|ev<k>>
 //	     the real pdkg.Grouping of every member over an in-memory network; cancellation is
 //	     injected at the k-th network event (message boundary);
 //	full p=query.<sys|user|url> role=<submitter|member> bt=<0|1> peers=<k> [req=fail|block] [chain=fail]
@@ -175,7 +175,11 @@ func fullGrouping(f *fullScen, self int, baseline map[int]bool) (string, error) 
 	var ms []*member
 	var wg sync.WaitGroup
 	for i := 0; i < n; i++ {
-		d := dkg.NewPDKG(net.Node(i, ids), suite)
+		var tr p2p.P2PInterface = net.Node(i, ids)
+		if (faultKind == "baddeal" || faultKind == "badresp") && i == faultWho {
+			tr = &corruptNode{Node: net.Node(i, ids), kind: faultKind}
+		}
+		d := dkg.NewPDKG(tr, suite)
 		go d.Loop()
 		if faultKind == "silent" && i == faultWho {
 			continue // a crashed peer: silent from the start
@@ -285,6 +289,32 @@ func fullGroupingDup(f *fullScen, self int, baseline map[int]bool) (string, erro
 		return "clean", nil
 	}
 	return "dirty leak=" + strings.Join(left, ","), nil
+}
+
+// corruptNode: a member whose outgoing deals (baddeal) or responses (badresp) are damaged in transit: the
+// receivers' stages take their "invalid deal" / "invalid response" exits
+type corruptNode struct {
+	*dkgnet.Node
+	kind string
+}
+
+func (c *corruptNode) Request(ctx context.Context, id []byte, m proto.Message) (p2p.P2PMessage, error) {
+	m = proto.Clone(m)
+	switch x := m.(type) {
+	case *dkg.Deal:
+		if c.kind == "baddeal" && x.Deal != nil && len(x.Deal.Cipher) > 0 {
+			x.Deal.Cipher[0] ^= 0xff
+		}
+	case *dkg.Responses:
+		if c.kind == "badresp" {
+			for _, r := range x.Response {
+				if r != nil && r.Response != nil && len(r.Response.Signature) > 0 {
+					r.Response.Signature[0] ^= 0xff
+				}
+			}
+		}
+	}
+	return c.Node.Request(ctx, id, m)
 }
 
 func isClosed(c chan [5]*big.Int) bool {
